@@ -23,6 +23,27 @@ class CondSpec(SeqSpec):
         ops = []
         pending_release = []
         nctx = nw
+        if targeted == "cancel-race":
+            # a Signal racing a cancellation while a second waiter needs the token: the cancelled waiter's select
+            # has both arms ready; whichever it takes, the other waiter must not be left without a wakeup
+            nw = rng.choice([2, 3])
+            for w in range(nw):
+                ops.append(["wait", w, w, "post"])
+            ops.append(["quiesce"])
+            steps = [["signal"], ["cancel", 0]]
+            rng.shuffle(steps)
+            ops += steps
+            order = list(range(nw))
+            if rng.random() < 0.7:
+                order = [0] + order[1:]
+            else:
+                rng.shuffle(order)
+            for w in order:
+                ops.append(["release", w])
+                if rng.random() < 0.7:
+                    ops.append(["quiesce"])
+            ops.append(["quiesce"])
+            return ops, nw
         if targeted:
             # the window named by the property: waiters held between the lock release and the select
             nw = rng.choice([2, 3])
@@ -73,7 +94,7 @@ class CondSpec(SeqSpec):
         n = int((300 if tier == "quick" else 4000) * scale)
         cases = []
         for i in range(n):
-            ops, nctx = self.gen_one(rng, targeted=(i % 6 == 0))
+            ops, nctx = self.gen_one(rng, targeted=("cancel-race" if i % 6 == 3 else (i % 6 == 0)))
             cases.append({"component": "cond", "ops": ops, "cfg": {"nctx": nctx}})
         return cases
 
